@@ -348,31 +348,117 @@ def details(regs, hide=()):
 
 # ------------------------------------------------------------------------------------------------ class constants
 def class_consts(rel, wanted):
-    """{class: {NAME: literal}} for simple class-level assignments (ints / strings / bytes), following single inheritance."""
+    """{class: {NAME: value}} of class-level constants read BY VALUE (tools/extract/consteval.py: hex / arithmetic / named
+    constants / inherited ones all give the same value).  A constant that cannot be evaluated is left out (the caller emits a
+    stand-in that makes the dependent theorem fail, never a default)."""
+    from consteval import ModuleEnv, NotConst
     tree = parse(rel)
-    classes = {n.name: n for n in tree.body if isinstance(n, ast.ClassDef)}
+    env = ModuleEnv(tree)
     out = {}
-    for cname in classes:
-        vals = {}
-        chain, n = [], cname
-        while n in classes:
-            chain.append(n)
-            bases = [b.id for b in classes[n].bases if isinstance(b, ast.Name)]
-            n = bases[0] if bases else None
-        for c in reversed(chain):
-            for st in classes[c].body:
-                tgt = None
-                if isinstance(st, ast.Assign) and len(st.targets) == 1 and isinstance(st.targets[0], ast.Name):
-                    tgt, val = st.targets[0].id, st.value
-                elif isinstance(st, ast.AnnAssign) and isinstance(st.target, ast.Name) and st.value is not None:
-                    tgt, val = st.target.id, st.value
-                if tgt in wanted:
-                    try:
-                        vals[tgt] = ast.literal_eval(val)
-                    except (ValueError, SyntaxError):
-                        pass
-        out[cname] = vals
+    for node in tree.body:
+        if isinstance(node, ast.ClassDef):
+            ce = env.cls(node.name)
+            vals = {}
+            for name in wanted:
+                try:
+                    if ce.has(name):
+                        vals[name] = ce.value(name)
+                except (NotConst, Exception):  # noqa: BLE001
+                    pass
+            out[node.name] = vals
     return out
+
+
+# ------------------------------------------------------------------------------------------------ bit functions -> BExpr
+class NoBits(Exception):
+    pass
+
+
+def bitfun_to_bexpr(rel, qualname):
+    """Translate a straight-line bit function of one integer (`&`, `|`, `^`, shifts by constants, `~e & CONST`, local and
+    augmented assignments, one `return`) into the text of a `SpsdkVerif.BitExpr.BExpr`.  Constants are read by value.
+    The tree mirrors the source; the THEOREM about it is semantic (verified equivalence check), so the shape does not matter."""
+    from consteval import ModuleEnv, NotConst
+    tree = parse(rel)
+    env = ModuleEnv(tree)
+    cname, fname = qualname.split(".")
+    cls = next(n for n in tree.body if isinstance(n, ast.ClassDef) and n.name == cname)
+    fn = next(n for n in cls.body if isinstance(n, ast.FunctionDef) and n.name == fname)
+    params = [a.arg for a in fn.args.args if a.arg not in ("self", "cls")]
+    if len(params) != 1:
+        raise NoBits("not a function of one value")
+    local = {params[0]: "var"}
+
+    def const(node):
+        try:
+            v = env.eval(node, cls=cname)
+        except (NotConst, Exception):  # noqa: BLE001
+            return None
+        return v if isinstance(v, int) and not isinstance(v, bool) and v >= 0 else None
+
+    def tr(node):
+        c = const(node)
+        if c is not None:
+            return f"(lit {c})"
+        if isinstance(node, ast.Name):
+            if node.id in local:
+                return local[node.id]
+            raise NoBits(f"unknown name {node.id}")
+        if isinstance(node, ast.BinOp):
+            op = type(node.op)
+            if op is ast.BitAnd:
+                for a, b in ((node.left, node.right), (node.right, node.left)):
+                    if isinstance(a, ast.UnaryOp) and isinstance(a.op, ast.Invert):
+                        m = const(b)
+                        if m is None:
+                            raise NoBits("~e & non-constant")
+                        return f"(notMask {tr(a.operand)} {m})"
+                return f"(.and {tr(node.left)} {tr(node.right)})"
+            if op is ast.BitOr:
+                return f"(.or {tr(node.left)} {tr(node.right)})"
+            if op is ast.BitXor:
+                return f"(.xor {tr(node.left)} {tr(node.right)})"
+            if op in (ast.LShift, ast.RShift):
+                k = const(node.right)
+                if k is None:
+                    raise NoBits("shift by a non-constant")
+                return f"({'shl' if op is ast.LShift else 'shr'} {tr(node.left)} {k})"
+            raise NoBits(f"operator {op.__name__}")
+        raise NoBits(f"expression {type(node).__name__}")
+
+    for st in fn.body:
+        if isinstance(st, ast.Expr) and isinstance(st.value, ast.Constant) and isinstance(st.value.value, str):
+            continue  # docstring
+        if isinstance(st, ast.Assign) and len(st.targets) == 1 and isinstance(st.targets[0], ast.Name):
+            local[st.targets[0].id] = tr(st.value)
+        elif isinstance(st, ast.AnnAssign) and isinstance(st.target, ast.Name) and st.value is not None:
+            local[st.target.id] = tr(st.value)
+        elif isinstance(st, ast.AugAssign) and isinstance(st.target, ast.Name):
+            local[st.target.id] = tr(ast.BinOp(left=ast.Name(id=st.target.id, ctx=ast.Load()), op=st.op, right=st.value))
+        elif isinstance(st, ast.Return) and st.value is not None:
+            return tr(st.value)
+        else:
+            raise NoBits(f"statement {type(st).__name__}")
+    raise NoBits("no return")
+
+
+def gen_PfrRules():
+    """the computed-field rule functions of BaseConfigArea (spsdk/pfr/pfr.py) as bit expressions"""
+    out = ["import SpsdkVerif.Base.BitExpr", "", "namespace SpsdkVerif.Generated.PfrRules", "open SpsdkVerif.BitExpr SpsdkVerif.BitExpr.BExpr", ""]
+    meta = {"functions": {}}
+    for method, rid in sorted(RULES.items(), key=lambda kv: kv[1]):
+        try:
+            txt = bitfun_to_bexpr("spsdk/pfr/pfr.py", "BaseConfigArea." + method)
+            out.append(f"/-- `BaseConfigArea.{method}` (rule {rid}) -/")
+            out.append(f"def rule{rid} : Option BExpr := some {txt}")
+            meta["functions"][method] = {"rule": rid, "mode": "translated"}
+        except (NoBits, StopIteration, OSError, SyntaxError) as exc:
+            out.append(f"-- not translatable: BaseConfigArea.{method}: {exc}")
+            out.append(f"def rule{rid} : Option BExpr := none")
+            meta["functions"][method] = {"rule": rid, "mode": "untranslatable", "reason": str(exc)}
+        out.append("")
+    out.append("end SpsdkVerif.Generated.PfrRules")
+    emit("PfrRules", "\n".join(out) + "\n", meta)
 
 
 def lean_str(s):
@@ -384,10 +470,10 @@ def gen_RegLayouts():
     _emitted["done"] = True
     db = Db()
     pfrc = class_consts("spsdk/pfr/pfr.py", {"BINARY_SIZE", "IMAGE_PREFILL_PATTERN", "DB_SUB_FEATURE", "MARK", "FEATURE_NAME"})
-    bca = class_consts("spsdk/image/bca/bca.py", {"SIZE", "TAG"})["BCA"]
-    fcf = class_consts("spsdk/image/fcf/fcf.py", {"SIZE"})["FCF"]
-    fcb = class_consts("spsdk/image/fcb/fcb.py", {"SIZE", "TAG"})["FCB"]
-    xhd = class_consts("spsdk/image/xmcd/xmcd.py", {"TAG"})["XMCDHeader"]
+    bca = class_consts("spsdk/image/bca/bca.py", {"SIZE", "TAG"}).get("BCA", {})
+    fcf = class_consts("spsdk/image/fcf/fcf.py", {"SIZE"}).get("FCF", {})
+    fcb = class_consts("spsdk/image/fcb/fcb.py", {"SIZE", "TAG"}).get("FCB", {})
+    xhd = class_consts("spsdk/image/xmcd/xmcd.py", {"TAG"}).get("XMCDHeader", {})
     pfr_cls = {v.get("DB_SUB_FEATURE"): (k, v) for k, v in pfrc.items() if v.get("DB_SUB_FEATURE")}
 
     spec_cache = {}
@@ -493,12 +579,12 @@ def gen_RegLayouts():
                     # get_families(feature, sub): the LATEST revision lists the sub-feature
                     if feature in lf and sub in (lf[feature].get("sub_features") or []) and dget(feats, [feature, sub, "reg_spec"]):
                         cname, cv = pfr_cls[sub]
-                        add_layout(f"{sub}/{name}/{rn}/{sub}", sub, dev, feats, feature, [sub], size=cv["BINARY_SIZE"],
-                                   fill=vti(cv.get("IMAGE_PREFILL_PATTERN", "0x00")), doc=cv["BINARY_SIZE"], pfr=True)
+                        add_layout(f"{sub}/{name}/{rn}/{sub}", sub, dev, feats, feature, [sub], size=cv.get("BINARY_SIZE", 1),
+                                   fill=vti(cv.get("IMAGE_PREFILL_PATTERN", "0x00")), doc=cv.get("BINARY_SIZE", 1), pfr=True)
             if "bca" in lf and "bca" in feats:
-                add_layout(f"bca/{name}/{rn}", "bca", dev, feats, "bca", [], doc=bca["SIZE"])
+                add_layout(f"bca/{name}/{rn}", "bca", dev, feats, "bca", [], doc=bca.get("SIZE", 1))
             if "fcf" in lf and "fcf" in feats:
-                add_layout(f"fcf/{name}/{rn}", "fcf", dev, feats, "fcf", [], doc=fcf["SIZE"])
+                add_layout(f"fcf/{name}/{rn}", "fcf", dev, feats, "fcf", [], doc=fcf.get("SIZE", 1))
             if "fuses" in lf and "fuses" in feats:
                 add_layout(f"fuses/{name}/{rn}", "fuses", dev, feats, "fuses", [], binary=False, fuse=True)
             if "fcb" in lf and "fcb" in feats:
@@ -556,21 +642,30 @@ def gen_RegLayouts():
             for sub in ast.walk(node):
                 if isinstance(sub, ast.Attribute) and isinstance(sub.value, ast.Name) and sub.value.id == "CrcAlg":
                     crc_alg = sub.attr
-    # TrustZone: struct formats f"<{n}I" / f"<{n}L" -> (byte order prefix, type code)
+    # TrustZone: struct formats f"<{n}I" / f"<{n}L" read BY VALUE: (byte order, normalised type code, size of one item)
     def struct_fmt(fn_name, call_name):
+        import struct as _struct
+
+        from consteval import struct_fields
         for node in ast.walk(parse("spsdk/image/trustzone.py")):
             if isinstance(node, ast.FunctionDef) and node.name == fn_name:
                 for sub in ast.walk(node):
                     if (isinstance(sub, ast.Call) and isinstance(sub.func, ast.Attribute) and sub.func.attr == call_name and sub.args
-                            and isinstance(sub.args[0], ast.JoinedStr)):
-                        parts = [v.value for v in sub.args[0].values if isinstance(v, ast.Constant)]
-                        if len(parts) == 2:
-                            return parts[0], parts[1]
-        return "?", "?"
+                            and isinstance(sub.args[0], (ast.JoinedStr, ast.Constant))):
+                        a0 = sub.args[0]
+                        fmt = a0.value if isinstance(a0, ast.Constant) else "".join(
+                            v.value if isinstance(v, ast.Constant) else "1" for v in a0.values)   # the item count is set to 1
+                        try:
+                            order, fields = struct_fields(fmt)
+                            if len(fields) == 1:
+                                return order, fields[0][0], _struct.calcsize(order + fields[0][0])
+                        except Exception:  # noqa: BLE001
+                            pass
+        return "?", "?", 0
     pk, up = struct_fmt("_custom_export", "pack"), struct_fmt("_parse_raw_data", "unpack")
-    out.append("/-- struct formats of TrustZone._custom_export / _parse_raw_data: (byte-order prefix, type code) -/")
-    out.append(f"def tzPackFormat : String × String := ({lean_str(pk[0])}, {lean_str(pk[1])})")
-    out.append(f"def tzUnpackFormat : String × String := ({lean_str(up[0])}, {lean_str(up[1])})")
+    out.append("/-- struct formats of TrustZone._custom_export / _parse_raw_data, normalised: (byte-order prefix, type code with L = I, item size) -/")
+    out.append(f"def tzPackFormat : String × String × Nat := ({lean_str(pk[0])}, {lean_str(pk[1])}, {pk[2]})")
+    out.append(f"def tzUnpackFormat : String × String × Nat := ({lean_str(up[0])}, {lean_str(up[1])}, {up[2]})")
     out.append(f"/-- the `CrcAlg` member `XMCD.calculate_crc` uses -/")
     out.append(f"def xmcdCrcAlg : String := {lean_str(crc_alg)}")
     out.append(f"/-- FCB.SIZE / FCF.SIZE / BCA.SIZE: the minimal length `parse` accepts (FCB, FCF) -/")
@@ -635,14 +730,5 @@ def gen_RegDetails():
 GENERATORS = {"RegLayouts": gen_RegLayouts, "RegDetails": gen_RegDetails}
 
 
-def gen_PfrFuns():
-    """AST translation of the two computed-field functions of BaseConfigArea (spsdk/pfr/pfr.py)."""
-    from extract import gen_funs
-    f = "spsdk/pfr/pfr.py"
-    gen_funs("PfrFuns", [
-        dict(file=f, qualname="BaseConfigArea.pfr_reg_inverse_high_half", lean="pfrInverseHighHalf", fallback_params=["val"]),
-        dict(file=f, qualname="BaseConfigArea.pfr_reg_inverse_lower_8_bits", lean="pfrInverseLower8Bits", fallback_params=["val"]),
-    ], "PfrFuns")
+GENERATORS["PfrRules"] = gen_PfrRules
 
-
-GENERATORS["PfrFuns"] = gen_PfrFuns
